@@ -80,7 +80,9 @@ def check_wrapper(chk, crate, ident, blk, meths):
         if ok:
             call = calls[0][4]
             if m == "try_from_rng":
-                ok = isinstance(ret, EnumV) and isinstance(ret.discr, T.T) and ret.discr is T.atom("res", 64, (call,), "ret.discr")
+                # Ok exactly when the inner call is Ok (`.map(Wrapper)` keeps the discriminant, `?` + `Ok(..)` re-creates it)
+                ok = isinstance(ret, EnumV) and isinstance(ret.discr, T.T) and T.eqz(ret.discr) is T.eqz(T.atom("res", 64, (call,), "ret.discr")) \
+                    and 0 in ret.payloads and 1 in ret.payloads
                 if ok:
                     okv = all(_from_call(l, call) for l in flat_leaves(ret.payloads[0][0])[:8])
                     oke = all(_from_call(l, call) for l in flat_leaves(Struct(ret.payloads[1]))[:2])
@@ -183,7 +185,11 @@ def check_isaac(chk, crate, core_ident, w, init_def):
                 words = T.atom("le_words", w, (eff,), w)
                 arr, rounds = inits[0][5][0], inits[0][5][1]
                 elementwise = T.arr_lit(tuple(T.select(words, T.const(i, 64), w) for i in range(n)))
-                ok = len(arr) == 1 and (arr[0] is words or arr[0] is elementwise) and rounds == (T.const(2, 32),)
+                # the same words when the destination is a byte array that is decoded explicitly (from_le_bytes on chunks)
+                bw = w // 8
+                byts = [T.select(T.atom("effarr", 8, (call,), (1, nbytes)), T.const(j, 64), 8) for j in range(nbytes)]
+                explicit = T.arr_lit(tuple(REF.le_words(byts, w)))
+                ok = len(arr) == 1 and (arr[0] is words or arr[0] is elementwise or arr[0] is explicit) and rounds == (T.const(2, 32),)
                 shapes[m] = (ok, nbytes)
             chk.ob("R4", "%s::%s|one fill of %d bytes, little-endian %d-bit words, init(seed, 2)" % (core_ident, m, nbytes, w), ok,
                    "fills %d, init calls %d" % (len(fills), len(inits)), where=body["span"][0],
